@@ -159,6 +159,25 @@ def run_case(case):
     if eP > tolP:
         v('c07-posterior-covariance', 'posterior covariance differs from the exact one by %.3e (tol %.1e, '
           'cond(S)=%.1e)' % (eP, tolP, condS))
+    # the observed subspace, on the scale of R: H P+ H' = R - R S^-1 R is what the measurement leaves of the uncertainty
+    # in the directions it sees.  The symmetric (Joseph) form computes it as (HU) P (HU)' + (HK) R (HK)' with HU = R S^-1 H
+    # small, so its rounding error is relative to these terms (about eps |R|), not to |P|; a form that cancels two numbers
+    # of prior size (P - K S K') is off by eps |P| there - invisible relative to |P| when the prior is diffuse (P/R up to
+    # 1e16 inside the quantified ranges), and it can make the posterior variance of an observed state negative.
+    HU, HK = H @ U, H @ K
+    # (plus what the stored entries of P+ can resolve at all: H P+ H' evaluated from entries rounded to eps |P+_ij|; for a
+    # selection matrix that is eps times the posterior variance itself, for a dense H it is eps |P|)
+    tolM = c * EPS * (1 + condS) * (np.abs(HU) @ np.abs(P) @ np.abs(HU).T + np.abs(HK) @ np.abs(R) @ np.abs(HK).T) \
+        + c * EPS * (np.abs(H) @ np.abs(Pe) @ np.abs(H).T) + 1e-300
+    # entry (i, j) on the scale sqrt(T_ii T_jj) of its row and column (an exactly uncorrelated pair has T_ij = 0)
+    dM = np.sqrt(np.diag(tolM))
+    tolM = np.maximum(tolM, np.outer(dM, dM))
+    eM = np.abs(H @ Pp @ H.T - H @ Pe @ H.T)
+    tight('observed_subspace', (eM / tolM).max())
+    if (eM > tolM).any():
+        i_, j_ = np.unravel_index(np.argmax(eM / tolM), eM.shape)
+        v('c07-observed-subspace', 'H P+ H\' differs from the exact posterior in the observed subspace by %.3e at (%d,%d) (tol %.1e: '
+          'the error is measured on the scale of R, |R| = %.1e, |P| = %.1e)' % (eM[i_, j_], i_, j_, tolM[i_, j_], np.abs(R).max(), nP))
     asym = np.abs(Pp - Pp.T).max()
     tight('symmetry', asym / tolP)
     if asym > tolP:
